@@ -243,6 +243,8 @@ impl Driver {
             let kept_ref = &mut kept;
             let mut hangs = 0usize;
             let unjudged_hangs = &mut hangs;
+            let mut bh = 0usize;
+            let builder_hangs = &mut bh;
             run_specs(specs, &cfg, move |pos, rec| {
                 let new = agg.absorb(&specs[pos], &rec, judge);
                 let mut go_on = true;
@@ -253,6 +255,13 @@ impl Driver {
                     } else {
                         unknown.push(v);
                         go_on = keep_going;
+                    }
+                }
+                if rec.status != "ran" && rec.excluded_reason.starts_with("builder_") && !rec.excluded_reason.starts_with("builder_or_instrument_panic") {
+                    // input builders that hang or die: bounded damage
+                    *builder_hangs += 1;
+                    if *builder_hangs >= 16 {
+                        go_on = false;
                     }
                 }
                 if !judge && (rec.outcome == "timeout" || rec.outcome == "abort") {
@@ -645,6 +654,7 @@ fn write_evidence(d: &Driver, path: &Path, violations: i64, replays: &[Value], k
             "certificates_verified": a.certificates_ok,
             "intermediate_states_checked": a.states_checked,
             "runs_with_recorded_states": a.runs_with_states,
+            "distinct_intermediate_states": a.distinct_states.len(),
             "runs_with_bad_intermediate_state_by_kind_diagnostic_only": a.bad_intermediate_states,
             "inconclusive_by_kind": a.inconclusive,
             "notes": a.notes,
